@@ -516,7 +516,9 @@ func redactRecursively(obj interface{}, paths []string) (newObj interface{}, err
 
 		if len(xmlPaths) > 1 {
 			var xmlValue []byte
-			xmlValue, err = redactXml(result[0], xmlPaths[1])
+			// what follows ".xml()" starts with a dot; with it a path without an index ("body.xml().order.card")
+			// is looked up by mxj from an element with an empty name, never found, and nothing was redacted
+			xmlValue, err = redactXml(result[0], strings.TrimPrefix(xmlPaths[1], "."))
 			if err != nil {
 				return
 			}
